@@ -4,5 +4,5 @@ f=$1; n=$2
 d=$(mktemp -d /tmp/goalXXXX)
 head -n $n $f > $d/T.v
 echo "Show. Abort." >> $d/T.v
-cd "$(dirname "$0")" && timeout 300 coqc -Q . AV $d/T.v 2>&1 | tail -${3:-40}
+cd "$(dirname "$0")" && coqc -Q . AV $d/T.v 2>&1 | tail -${3:-40}
 rm -rf $d
